@@ -237,6 +237,53 @@ pub fn make(rng: &mut Rng, family: &str, dim: usize, periodic: bool, n: usize) -
             rng.shuffle(&mut gens);
             gens.truncate(n.max(5));
         }
+        "pythagorean" => {
+            // exactly co-spherical (co-circular in 2D) points that are NOT related by the axis symmetries of a lattice:
+            // integer vectors of equal length (3,4,0) (5,0,0) / (1,2,2) (3,0,0) / (2,3,6) (7,0,0) with all permutations and signs,
+            // scaled by a power of two and centred on a point of the same dyadic grid, so that every coordinate is exact
+            let base: &[[i64; 3]] = match rng.below(3) {
+                0 => &[[3, 4, 0], [5, 0, 0]],
+                1 => &[[1, 2, 2], [3, 0, 0]],
+                _ => &[[2, 3, 6], [7, 0, 0]],
+            };
+            let r = (base[0].iter().map(|x| x * x).sum::<i64>() as f64).sqrt();
+            let mut cand: Vec<DVec3> = vec![];
+            for b in base {
+                let perms = [[0usize, 1, 2], [1, 2, 0], [2, 0, 1], [0, 2, 1], [1, 0, 2], [2, 1, 0]];
+                for pm in perms {
+                    for sg in 0..8 {
+                        let v = DVec3::new(
+                            b[pm[0]] as f64 * if sg & 1 == 0 { 1. } else { -1. },
+                            b[pm[1]] as f64 * if sg & 2 == 0 { 1. } else { -1. },
+                            b[pm[2]] as f64 * if sg & 4 == 0 { 1. } else { -1. },
+                        );
+                        let keep = (dim >= 3 || v.z == 0.) && (dim >= 2 || v.y == 0.);
+                        if keep && !cand.contains(&v) {
+                            cand.push(v);
+                        }
+                    }
+                }
+            }
+            rng.shuffle(&mut cand);
+            cand.truncate(n.max(4));
+            // scale: radius ~ 1/4 of the smallest active extent, rounded down to a power of two
+            let mut wmin = width.x;
+            if dim >= 2 {
+                wmin = wmin.min(width.y);
+            }
+            if dim >= 3 {
+                wmin = wmin.min(width.z);
+            }
+            let sc = 2f64.powi((0.25 * wmin / r).log2().floor() as i32);
+            let c0 = anchor + width * 0.5;
+            let c = DVec3::new((c0.x / sc).round() * sc, (c0.y / sc).round() * sc, (c0.z / sc).round() * sc);
+            for v in cand {
+                gens.push(c + v * sc);
+            }
+            if rng.bool() {
+                gens.push(c); // the common centre: all its neighbours are exactly equidistant
+            }
+        }
         "single" => gens.push(lerp(anchor, width, rand_unit(rng))),
         "pair" => {
             gens.push(lerp(anchor, width, rand_unit(rng)));
@@ -280,7 +327,7 @@ pub fn make(rng: &mut Rng, family: &str, dim: usize, periodic: bool, n: usize) -
 }
 
 pub const FAMILIES: &[&str] = &[
-    "uniform", "cluster", "lattice", "lattice_wall", "on_boundary", "collinear", "coplanar", "cospherical", "cospherical_lattice", "single", "pair",
+    "uniform", "cluster", "lattice", "lattice_wall", "on_boundary", "collinear", "coplanar", "cospherical", "cospherical_lattice", "pythagorean", "single", "pair",
 ];
 
 /// random mask kinds: all / none / single / random
